@@ -29,6 +29,8 @@ def buf_events(A, sop=None):
 
 
 def run(W, chk):
+    from rules.common import borrow
+    borrow(W, chk, "C08", {"CUT-expand-own-position"}, "the second leg cannot expand a position of someone other than the sender")
     A = W.run("pool_manager", "execute", ("ProvideLiquidity",))
     # ---------------- first leg
     legs = [e for e in A.calls(r"cosmwasm_std::wasm_execute$")
